@@ -471,7 +471,7 @@ def asm_to_vm(ctx, r):
     return mp
 
 
-@rule("IMM-SIBLING", ["C05", "C15", "C16"], "X and XImm arms agree on operations, guards and error kinds; only the source of operand 2 differs")
+@rule("IMM-SIBLING", ["C05", "C15", "C16", "C24"], "X and XImm arms agree on operations, guards and error kinds; only the source of operand 2 differs")
 def imm_sibling(ctx, r):
     arms = _arms(ctx, r)
     if arms is None:
@@ -521,7 +521,7 @@ def imm_sibling(ctx, r):
 FLOAT_PREDS = {"is_lt", "is_le", "is_gt", "is_ge", "is_eq", "is_ne"}
 
 
-@rule("FLOAT-ORDER", ["C16"], "float comparisons and equality use the one total order (total_cmp), operands in order")
+@rule("FLOAT-ORDER", ["C16", "C24"], "float comparisons and equality use the one total order (total_cmp), operands in order")
 def float_order(ctx, r):
     arms = _arms(ctx, r)
     if arms is None:
